@@ -72,18 +72,38 @@ Definition emit_g (e : gev) : M unit := fun s => mkOut (Ok tt) s (wgev e).
 Definition emit_u (e : uev) : M unit := fun s => mkOut (Ok tt) s (wuev e).
 Definition get_ts : M tstate := fun s => mkOut (Ok (ts s)) s wnil.
 Definition put_ts (t : tstate) : M unit := fun s => mkOut (Ok tt) (with_ts s t) wnil.
-(* state updates.  upd_reg: registration-like change, flagged reg; set_failed: flagged nf;
-   upd_cleanup: the unflagged rewriting T.cleanup does (never touches [failed]) *)
-Definition upd_reg (f : tstate -> tstate) : M unit := fun s =>
-  mkOut (Ok tt) (with_ts s (f (ts s))) (mkW [] [] [] [] [] 0 false true false).
-Definition upd_cleanup (f : tstate -> tstate) : M unit := fun s =>
-  mkOut (Ok tt) (with_ts s (f (ts s))) wnil.
-Definition set_failed (m : msg) : M unit := fun s =>
-  let t := ts s in
-  mkOut (Ok tt) (with_ts s (mkT (Some m) (cleanups t) (ctx t) (cleaning t))) (mkW [] [] [] [] [] 0 true false false).
-Definition mark_nf : M unit := fun s => mkOut (Ok tt) s (mkW [] [] [] [] [] 0 true false false).
 Definition mark_dirty : M unit := fun s => mkOut (Ok tt) s (mkW [] [] [] [] [] 0 false false true).
-Definition mark_reg : M unit := fun s => mkOut (Ok tt) s (mkW [] [] [] [] [] 0 false true false).
+(* ---- the bookkeeping operations of T, each with the event the harness logs for it ---- *)
+Definition wev (l : list uev) (nfb regb : bool) : wr := mkW [] [] [] l [] 0 nfb regb false.
+(* T.fail(now, msg) for Error/Fatal kinds; a panic only shows in the log *)
+Definition signal (k : failkind) (m : msg) (id : nat) : M unit := fun s =>
+  match k with
+  | KPanic => mkOut (Ok tt) s (wev [USignal k m id] false false)
+  | _ => let t := ts s in
+         mkOut (Ok tt) (with_ts s (mkT (Some m) (cleanups t) (ctx t) (cleaning t))) (wev [USignal k m id] true false)
+  end.
+(* T.Cleanup(f) *)
+Definition register (id : nat) (f : prog) : M unit := fun s =>
+  let t := ts s in
+  mkOut (Ok tt) (with_ts s (mkT (failed t) ((id, f) :: cleanups t) (ctx t) (cleaning t))) (wev [UReg id] false true).
+(* T.Context(): the live context, a cancelled one during cleanup, or a new one; returns ctx.Err() == nil *)
+Definition context_call : M bool := fun s =>
+  let t := ts s in
+  if ctx t then mkOut (Ok true) s (wev [UCtxSeen true] false false)
+  else if cleaning t then mkOut (Ok false) s (wev [UCtxSeen false] false false)
+  else mkOut (Ok true) (with_ts s (mkT (failed t) (cleanups t) true (cleaning t))) (wev [UCtxNew; UCtxSeen true] false true).
+(* T.cleanup(): cleaning := true and the context cancelled; pop one function; cleaning := false *)
+Definition begin_cleanup : M unit := fun s =>
+  let t := ts s in
+  mkOut (Ok tt) (with_ts s (mkT (failed t) (cleanups t) false true)) (wev (if ctx t then [UCtxCancel] else []) false false).
+Definition pop_cleanup : M (option prog) := fun s =>
+  let t := ts s in
+  match cleanups t with
+  | [] => mkOut (Ok None) s wnil
+  | (id, c) :: rest => mkOut (Ok (Some c)) (with_ts s (mkT (failed t) rest (ctx t) true)) (wev [URun id] false false)
+  end.
+Definition end_cleanup : M unit := fun s =>
+  let t := ts s in mkOut (Ok tt) (with_ts s (mkT (failed t) (cleanups t) (ctx t) false)) wnil.
 (* Draw delivered v to user code on the current T *)
 Definition note_draw (v : val) : M unit := fun s => mkOut (Ok tt) s (mkW [] [] [] [UDraw v] [v] 1 false false false).
 (* run m on a fresh inner T that shares the stream (Custom); afterwards the outer T is back, with a
@@ -97,7 +117,7 @@ Definition with_fresh_T {A} (m : M A) : M A := fun s =>
                 | None => outer end in
   let w' := w o in
   mkOut (res o) (with_ts (post o) outer')
-        (mkW (rd w') (rpd w') (glog w') (tr w') (pv w') 0 (nf w') false (dirty w')).
+        (mkW (rd w') (rpd w') (glog w') (UFrameBegin :: tr w' ++ [UFrameEnd]) (pv w') 0 (nf w') false (dirty w')).
 (* map over the writer of a computation (used to discard, to reset counters at a T boundary ...) *)
 Definition wmap {A} (f : wr -> wr) (m : M A) : M A := fun s =>
   let o := m s in mkOut (res o) (post o) (f (w o)).
